@@ -56,7 +56,9 @@ var (
 	AstralStrings  = []string{"😀", "a😀b", "𝒳"}
 	EscapeStrings  = []string{"a\nb", "tab\there", "back\\slash", "cr\rlf", "\b\f", "q'q",
 		// characters outside ASCII before, between and after escapes (Latin-1, two-, three- and four-byte encodings)
-		"\u00e9\tb", "caf\u00e9\n", "\n\u00e9", "\u4e2d\n\u6587", "\U0001F600\\x", "\u00fc'\u00e9\n", "\u00ff\t\u0100", "a\u00a0\nb"}
+		"\u00e9\tb", "caf\u00e9\n", "\n\u00e9", "\u4e2d\n\u6587", "\U0001F600\\x", "\u00fc'\u00e9\n", "\u00ff\t\u0100", "a\u00a0\nb",
+		// a real backslash in front of text that looks like an escape (a decoder working in two passes decodes it twice)
+		"\\u0041", "\\n", "a\\u2028b", "\\\\u00e9", "\\'", "\\t\\u0062", "\\x41"}
 )
 
 // Opts selects features of generated programs.
